@@ -21,8 +21,8 @@ class PDAObjectCreator:
         if isinstance(symbol, cfg.Epsilon):
             return pda.Epsilon()
         if self._inverse_symbol[symbol] is None:
-            value = str(symbol.value)
-            temp = pda.Symbol(value)
+            # The value is kept as it is: 1 and "1" are different symbols
+            temp = pda.Symbol(symbol.value)
             self._inverse_symbol[symbol] = temp
             return temp
         return self._inverse_symbol[symbol]
@@ -35,6 +35,15 @@ class PDAObjectCreator:
             value = str(stack_symbol.value)
             if isinstance(stack_symbol, cfg.Terminal):
                 value = "#TERM#" + value
+            # Two objects of the grammar never share a stack symbol (the
+            # variable "#TERM#a" and the terminal "a", the variables 1 and "1")
+            taken = {x.value for x in self._inverse_stack_symbol.values()
+                     if x is not None}
+            base_value = value
+            idx = 0
+            while value in taken:
+                idx += 1
+                value = base_value + "#" + str(idx)
             temp = pda.StackSymbol(value)
             self._inverse_stack_symbol[stack_symbol] = temp
             return temp
